@@ -56,8 +56,8 @@ func lexExpr(s string) ([]tok, error) {
 		switch {
 		case c == ' ' || c == '\t' || c == '\n':
 			i++
-		case unicode.IsLetter(rune(c)) || c == '_' || c == '$':
-			j := i
+		case unicode.IsLetter(rune(c)) || c == '_' || c == '$' || c == '@':
+			j := i + 1
 			for j < len(s) && (unicode.IsLetter(rune(s[j])) || unicode.IsDigit(rune(s[j])) || s[j] == '_' || s[j] == '$') {
 				j++
 			}
